@@ -1,7 +1,24 @@
 import Bch.Tie.Locking
 import Bch.Tie.Gcs
+import Bch.Proofs.Locking
+import Bch.Props.C09
+/-
+Property C20 — a bloom filter may be used from many goroutines at once; GCS filters are immutable.
+
+The interleaving semantics (`stepT`, `Reach`, `init`, traces of `Event`s) and all lemmas are in
+`Bch/Proofs/Locking.lean`; read its header for the modelling choices (effect of an invocation at
+its first `access`, implicit `ret` at the end of a body, no rule for `opaque`).  Vocabulary:
+* `WB P`            every skeleton of program `P` is `wellBracketed`;
+* `OS P`            every skeleton is "one-section": `skip* lock skip* access (access|skip)* unlock
+                    skip* (ret|end)` — the shape of ALL extracted skeletons (`real_skeletons_oneSection`);
+* `effInvs tr`      (thread, index, op) of the invocations in the order of their effects;
+* `lockInvs tr`     (thread, index, op) of the `lock` events of the trace, in order;
+* `Gov tr l p`      `l` is the position of the last `lock` event before position `p`, and it belongs
+                    to the same invocation as the event at `p`;
+* `seqRun step s0 l` sequential execution of the invocations `l`: final state and result log.
+-/
 namespace Bch.Props.C20
-open Bch.Model.Locking
+open Bch.Model.Locking Bch.Proofs.Locking
 
 /-- every exported method of bloom.Filter (skeletons regenerated from the source) is well bracketed -/
 theorem wellBracketed_all :
@@ -13,5 +30,461 @@ theorem wellBracketed_all :
 theorem C20_gcs_immutable : ∀ m ∈ Bch.Generated.gcsWrites, m.2 = 0 := by
   have h := Bch.Tie.Gcs.tie_gcs_immutable
   simpa [List.all_eq_true] using h
+
+section Generic
+variable {σ Op Res : Type} (step : σ → Op → σ × Res)
+
+/-- **Mutual exclusion.** In every reachable configuration of every program (`k` threads, any
+skeletons) the threads inside a critical section (last mutex event is a `lock`) are exactly the
+mutex holder — so at most one.  For well-bracketed programs every `access` event at any trace
+position is performed by the thread that holds the mutex and is inside its critical section at
+that moment.  (Every prefix of an execution is itself reachable, so this covers all executions.) -/
+theorem C20_mutual_exclusion (P : List (List (Invoc Op))) (s0 : σ) (c : Config σ Op Res)
+    (h : Reach step (init P s0) c) :
+    (∀ t t', inCS t c.tr = true → inCS t' c.tr = true → t = t') ∧
+    (∀ t, inCS t c.tr = true ↔ c.holder = some t) ∧
+    (WB P → ∀ (p : Nat) (e : Event Op), c.tr[p]? = some e → e.act = .access →
+      e.holder = some e.tid ∧ inCS e.tid (c.tr.take p) = true) := by
+  obtain ⟨h1, h2, h3⟩ := mutual_exclusion h
+  refine ⟨h1, h2, ?_⟩
+  intro hP p e hp hacc
+  have := access_by_holder hP h e (List.mem_of_getElem? hp) hacc
+  exact ⟨this, (h3 p e hp e.tid).mpr this⟩
+
+/-- **Data-race freedom (headline).** In any execution of a well-bracketed program, two `access`
+events of different threads at trace positions `p < p'` are separated by an `unlock` of the earlier
+thread at `u` and a `lock` of the later thread at `l`, `p < u < l < p'`: they are ordered by the
+mutex's happens-before edge of the Go memory model. -/
+theorem C20_drf (P : List (List (Invoc Op))) (s0 : σ) (c : Config σ Op Res) (hP : WB P)
+    (h : Reach step (init P s0) c) :
+    ∀ (p p' : Nat) (a a' : Event Op), p < p' → c.tr[p]? = some a → c.tr[p']? = some a' →
+      a.act = .access → a'.act = .access → a.tid ≠ a'.tid →
+      ∃ (u l : Nat) (b d : Event Op), p < u ∧ u < l ∧ l < p' ∧
+        c.tr[u]? = some b ∧ b.act = .unlock ∧ b.tid = a.tid ∧
+        c.tr[l]? = some d ∧ d.act = .lock ∧ d.tid = a'.tid :=
+  drf hP h
+
+/-- **Linearizability (headline), well-bracketed programs.** For every reachable configuration:
+1. the shared state and the recorded results are those of the sequential run of the invocations in
+   the order of their effects; in particular the invocation at any place of that order got the
+   result the sequential run gives it there;
+2. the effects are effects of invocations of the program, and in a complete execution every thread
+   has performed exactly its effectful invocations, once each, in program order;
+3. that order is the order of the `lock` events: every effect is governed by the last `lock` event
+   before it, which belongs to the same invocation, and of two effects `p < p'` the governing
+   `lock` of the later lies after the earlier effect (`l < p < l' < p'`). -/
+theorem C20_linearizable (P : List (List (Invoc Op))) (s0 : σ) (c : Config σ Op Res) (hP : WB P)
+    (h : Reach step (init P s0) c) :
+    ((c.st, c.res) = seqRun step s0 (effInvs c.tr) ∧
+     c.st = ((effInvs c.tr).map (·.2.2)).foldl (fun s op => (step s op).1) s0 ∧
+     ∀ pre x post, effInvs c.tr = pre ++ x :: post →
+       (x.1, x.2.1, (step ((pre.map (·.2.2)).foldl (fun s op => (step s op).1) s0) x.2.2).2)
+         ∈ c.res) ∧
+    ((∀ t i op, (t, i, op) ∈ effInvs c.tr →
+        ∃ inv, (P.getD t [])[i]? = some inv ∧ inv.op = op ∧ effectful inv.sk = true) ∧
+     (Complete c → ∀ t, effOf t c.tr = expected 0 (P.getD t []))) ∧
+    ((∀ (p : Nat) (a : Event Op), c.tr[p]? = some a → a.eff = true → ∃ l, Gov c.tr l p) ∧
+     (∀ (p p' l l' : Nat) (a a' : Event Op), p < p' → c.tr[p]? = some a → c.tr[p']? = some a' →
+        a.eff = true → a'.eff = true → Gov c.tr l p → Gov c.tr l' p' →
+        l < p ∧ p < l' ∧ l' < p')) := by
+  have hs : (c.st, c.res) = seqRun step s0 (effInvs c.tr) := (reach_all h).seq
+  have h1 : c.st = (seqRun step s0 (effInvs c.tr)).1 := by rw [← hs]
+  have h2 : c.res = (seqRun step s0 (effInvs c.tr)).2 := by rw [← hs]
+  refine ⟨⟨hs, by rw [h1, seqRun_fst], ?_⟩, ⟨fun t i op hm => effInvs_faithful h hm,
+    complete_effects h⟩, lock_order hP h⟩
+  intro pre x post hsplit
+  rw [h2, hsplit, ← seqRun_fst]
+  exact seqRun_mem s0 pre post x
+
+/-- **Linearizability in lock order, list form** (one-section programs — all real methods): in a
+complete execution the list of `lock` events IS the effect order, so the final state is the fold of
+`step` over the invocations in the order of their `lock` events, the recorded results are those of
+that sequential run, and every invocation of every thread occurs in it exactly once. -/
+theorem C20_linearizable_lock_list (P : List (List (Invoc Op))) (s0 : σ) (c : Config σ Op Res)
+    (hP : OS P) (h : Reach step (init P s0) c) (hc : Complete c) :
+    lockInvs c.tr = effInvs c.tr ∧
+    (c.st, c.res) = seqRun step s0 (lockInvs c.tr) ∧
+    c.st = ((lockInvs c.tr).map (·.2.2)).foldl (fun s op => (step s op).1) s0 ∧
+    (∀ t, effOf t c.tr = ((P.getD t []).zipIdx).map fun x => (x.2, x.1.op)) := by
+  have hl := lock_list_complete hP h hc
+  have hs : (c.st, c.res) = seqRun step s0 (effInvs c.tr) := (reach_all h).seq
+  refine ⟨hl, by rw [hl]; exact hs, ?_, ?_⟩
+  · rw [hl, ← seqRun_fst, ← hs]
+  · intro t
+    rw [complete_effects h hc t]
+    apply expected_all
+    intro i hi
+    have hmem : ∀ i ∈ P.getD t [], oneSection false false i.sk = true := by
+      intro i hi
+      rw [List.getD_eq_getElem?_getD] at hi
+      cases hg : P[t]? with
+      | none => rw [hg] at hi; simp at hi
+      | some th => rw [hg] at hi; exact hP th (List.mem_of_getElem? hg) i hi
+    simpa using oneSection_effectful _ _ _ (hmem i hi)
+
+end Generic
+
+/-! ## the bloom filter: `σ := Filter`, `step := Model.Bloom.step` (the sequential model of C09/C10) -/
+
+section Bloom
+open Bch.Model.Bloom
+open Bch.Proofs.Bloom (run inserts queries resets WithinLimits inserted WithinLimits_append)
+
+/-- **(b), linearisation form** (any program): if in the effect order (= lock order, by
+`C20_linearizable`) an insertion of `x` into a loaded filter precedes a query of `x` with no
+`reload`/`unload` in between, the result recorded for the query is `some true`. -/
+theorem C20_query_after_insert (P : List (List (Invoc Op))) (m0 : Msg)
+    (c : Config Filter Op (Option Bool)) (h : Reach Model.Bloom.step (init P (some m0)) c)
+    (pre mid post : List (Nat × Nat × Op)) (t i t' i' : Nat) (ins q : Op) (x : Bytes)
+    (hsplit : effInvs c.tr = pre ++ (t, i, ins) :: mid ++ (t', i', q) :: post)
+    (h0 : m0.bits.length ≤ 36000) (hlim : WithinLimits (pre.map (·.2.2)) = true)
+    (hloaded : (run (some m0) (pre.map (·.2.2))).isSome = true)
+    (hins : inserts ins = some x) (hmid : ∀ y ∈ mid, resets y.2.2 = false)
+    (hq : queries q = some x) :
+    (t', i', some true) ∈ c.res := by
+  have hs : (c.st, c.res) = seqRun Model.Bloom.step (some m0) (effInvs c.tr) := (reach_all h).seq
+  have h2 : c.res = (seqRun Model.Bloom.step (some m0) (effInvs c.tr)).2 := by rw [← hs]
+  have hsplit' : effInvs c.tr = (pre ++ (t, i, ins) :: mid) ++ (t', i', q) :: post := hsplit
+  have hm := seqRun_mem (step := Model.Bloom.step) (some m0) (pre ++ (t, i, ins) :: mid) post (t', i', q)
+  rw [← hsplit', ← h2, seqRun_fst] at hm
+  have hrun : (List.map (·.2.2) (pre ++ (t, i, ins) :: mid)).foldl
+      (fun s op => (Model.Bloom.step s op).1) (some m0)
+      = run (some m0) (pre.map (·.2.2) ++ ins :: mid.map (·.2.2)) := by
+    simp [run]
+  rw [hrun] at hm
+  have := Bch.Props.C09.C09_no_false_negatives_positional m0 (pre.map (·.2.2)) (mid.map (·.2.2))
+    ins q x h0 hlim hloaded hins
+    (by intro op hop
+        obtain ⟨y, hy, rfl⟩ := List.mem_map.mp hop
+        exact hmid y hy) hq
+  simp only at hm
+  rw [this] at hm
+  exact hm
+
+/-- **(b), trace form** (one-section programs — all real methods): a membership test for `x`
+whose `lock` event (position `l`, governing its effect at `p'`) follows the `unlock` event
+(position `u`) of an insertion of `x` into a loaded filter, with no `reload`/`unload` taking effect
+between the insertion's effect and the test's effect, records `some true`. -/
+theorem C20_query_after_unlock (P : List (List (Invoc Op))) (m0 : Msg)
+    (c : Config Filter Op (Option Bool)) (hP : OS P) (h : Reach Model.Bloom.step (init P (some m0)) c)
+    (u l p' : Nat) (b a' : Event Op) (x : Bytes)
+    (hu : c.tr[u]? = some b) (hb : b.act = .unlock) (hins : inserts b.op = some x)
+    (hp' : c.tr[p']? = some a') (ha' : a'.eff = true) (hq : queries a'.op = some x)
+    (hgov : Gov c.tr l p') (hul : u < l)
+    (h0 : m0.bits.length ≤ 36000)
+    (hlim : WithinLimits ((effInvs c.tr).map (·.2.2)) = true)
+    (hloaded : ∀ (p : Nat) (a : Event Op), c.tr[p]? = some a → a.eff = true → a.tid = b.tid →
+      a.inv = b.inv → (run (some m0) ((effInvs (c.tr.take p)).map (·.2.2))).isSome = true)
+    (hmid : ∀ (p : Nat) (a : Event Op), c.tr[p]? = some a → a.eff = true → a.tid = b.tid →
+      a.inv = b.inv → ∀ y ∈ effInvs ((c.tr.drop (p + 1)).take (p' - (p + 1))), resets y.2.2 = false) :
+    (a'.tid, a'.inv, some true) ∈ c.res := by
+  obtain ⟨p, a, hpu, hp, he, ht, hi, hop⟩ := unlock_after_effect hP h u b hu hb
+  obtain ⟨_, _, hlp', _⟩ := hgov
+  have hlt : p < p' := by omega
+  have hsplit := effInvs_split hlt hp hp' he ha'
+  have hlim' : WithinLimits ((effInvs (c.tr.take p)).map (·.2.2)) = true := by
+    rw [hsplit, List.map_append, WithinLimits_append, List.map_append, WithinLimits_append] at hlim
+    simp only [Bool.and_eq_true] at hlim
+    exact hlim.1.1
+  exact C20_query_after_insert P m0 c h _ _ _ a.tid a.inv a'.tid a'.inv a.op a'.op x hsplit h0 hlim'
+    (hloaded p a hp he ht hi) (by rw [hop]; exact hins) (hmid p a hp he ht hi) hq
+
+/-- **(a) no insertion is lost** (one-section programs — all real methods): in a complete execution
+the final filter is the sequential `run` of ALL invocations of all threads (each exactly once, per
+thread in program order) in the order of their `lock` events; hence — start state and reloaded
+messages within the wire limit — every item inserted while loaded since the last `reload`/`unload`
+of that order is matched by the final filter (C09). -/
+theorem C20_no_insertion_lost (P : List (List (Invoc Op))) (f0 : Filter)
+    (c : Config Filter Op (Option Bool)) (hP : OS P) (h : Reach Model.Bloom.step (init P f0) c)
+    (hc : Complete c) :
+    c.st = run f0 ((lockInvs c.tr).map (·.2.2)) ∧
+    (∀ t, effOf t c.tr = ((P.getD t []).zipIdx).map fun x => (x.2, x.1.op)) ∧
+    lockInvs c.tr = effInvs c.tr ∧
+    ((∀ m, f0 = some m → m.bits.length ≤ 36000) →
+      WithinLimits ((lockInvs c.tr).map (·.2.2)) = true →
+      ∀ x ∈ inserted f0 ((lockInvs c.tr).map (·.2.2)), Matches c.st x = true) := by
+  obtain ⟨h1, _, h3, h4⟩ := C20_linearizable_lock_list Model.Bloom.step P f0 c hP h hc
+  have hst : c.st = run f0 ((lockInvs c.tr).map (·.2.2)) := h3
+  refine ⟨hst, h4, h1, ?_⟩
+  intro hf0 hlim x hx
+  rw [hst]
+  exact Bch.Props.C09.C09_no_false_negatives_any_start f0 _ hf0 hlim x hx
+
+end Bloom
+
+/-! ## the real methods -/
+
+/-- a program over the real methods of bloom.Filter: the skeleton of every invocation is one of
+the skeletons extracted from /repo/bloom/filter.go (`Bch.Generated.bloomSkeletons`) -/
+def RealProgram {Op : Type} (P : List (List (Invoc Op))) : Prop :=
+  ∀ th ∈ P, ∀ i ∈ th, ∃ name, (name, i.sk) ∈ Bch.Generated.bloomSkeletons
+
+/-- every extracted skeleton has the one-section shape (kernel evaluation on the generated facts,
+like `wellBracketed_all`; it fails to check if a regenerated skeleton loses that shape) -/
+theorem real_skeletons_oneSection :
+    ∀ m ∈ Bch.Generated.bloomSkeletons, oneSection false false m.2 = true := by decide
+
+/-- programs over the real methods are well bracketed (by `wellBracketed_all`) and one-section -/
+theorem real_program_wb_os {Op : Type} (P : List (List (Invoc Op))) (hP : RealProgram P) :
+    WB P ∧ OS P := by
+  constructor
+  · intro th hth i hi
+    obtain ⟨name, hm⟩ := hP th hth i hi
+    exact wellBracketed_all (name, i.sk) hm
+  · intro th hth i hi
+    obtain ⟨name, hm⟩ := hP th hth i hi
+    exact real_skeletons_oneSection (name, i.sk) hm
+
+/-- **The theorems apply to every program over the real methods** (any number of threads, any
+sequences of calls of the ten exported methods with any arguments, any shared-state model `step`):
+every reachable configuration satisfies mutual exclusion, every `access` is by the holder, any two
+`access` events of different threads are separated by `unlock`→`lock`, state and results are those
+of the sequential run in effect order, the `lock` events list that order (followed by the holder
+that has not yet performed its effect), and in a complete execution the final state is the fold of
+`step` over all invocations in the order of their `lock` events. -/
+theorem C20_real_methods {σ Op Res : Type} (step : σ → Op → σ × Res) (P : List (List (Invoc Op)))
+    (s0 : σ) (c : Config σ Op Res) (hP : RealProgram P) (h : Reach step (init P s0) c) :
+    (∀ t t', inCS t c.tr = true → inCS t' c.tr = true → t = t') ∧
+    (∀ (p : Nat) (e : Event Op), c.tr[p]? = some e → e.act = .access →
+      e.holder = some e.tid ∧ inCS e.tid (c.tr.take p) = true) ∧
+    (∀ (p p' : Nat) (a a' : Event Op), p < p' → c.tr[p]? = some a → c.tr[p']? = some a' →
+      a.act = .access → a'.act = .access → a.tid ≠ a'.tid →
+      ∃ (u l : Nat) (b d : Event Op), p < u ∧ u < l ∧ l < p' ∧
+        c.tr[u]? = some b ∧ b.act = .unlock ∧ b.tid = a.tid ∧
+        c.tr[l]? = some d ∧ d.act = .lock ∧ d.tid = a'.tid) ∧
+    (c.st, c.res) = seqRun step s0 (effInvs c.tr) ∧
+    lockInvs c.tr = effInvs c.tr ++ pendingLock c ∧
+    (Complete c →
+      lockInvs c.tr = effInvs c.tr ∧
+      c.st = ((lockInvs c.tr).map (·.2.2)).foldl (fun s op => (step s op).1) s0 ∧
+      ∀ t, effOf t c.tr = ((P.getD t []).zipIdx).map fun x => (x.2, x.1.op)) := by
+  obtain ⟨hwb, hos⟩ := real_program_wb_os P hP
+  obtain ⟨m1, _, m3⟩ := C20_mutual_exclusion step P s0 c h
+  refine ⟨m1, m3 hwb, C20_drf step P s0 c hwb h, (C20_linearizable step P s0 c hwb h).1.1,
+    lock_list hos h, ?_⟩
+  intro hc
+  obtain ⟨l1, _, l3, l4⟩ := C20_linearizable_lock_list step P s0 c hos h hc
+  exact ⟨l1, l3, l4⟩
+
+/-! ## GCS filters -/
+
+/-- a call of a gcs.Filter method, modelled as a function of the filter: its name, the number of
+statements of the method that write receiver state (the fact extracted into
+`Bch.Generated.gcsWrites`), what such writes would do, and the answer as a function of the filter -/
+structure GcsCall (F R : Type) where
+  name : String
+  writes : Nat
+  mutate : F → F
+  query : F → R
+
+/-- a method without receiver writes leaves the filter unchanged -/
+def gcsStep {F R : Type} (f : F) (m : GcsCall F R) : F × R :=
+  (if m.writes = 0 then f else m.mutate f, m.query f)
+
+/-- all calls are calls of analysed gcs.Filter methods with their extracted write counts -/
+def GcsProgram {F R : Type} (P : List (List (Invoc (GcsCall F R)))) : Prop :=
+  ∀ th ∈ P, ∀ i ∈ th, (i.op.name, i.op.writes) ∈ Bch.Generated.gcsWrites
+
+/-- **GCS: no interference.** Any interleaving of any number of threads calling gcs.Filter methods
+— with ANY skeletons, no mutex needed — never changes the filter, and every call returns what it
+returns alone on the original filter.  Uses `C20_gcs_immutable` (all extracted write sets empty). -/
+theorem C20_gcs_no_interference {F R : Type} (P : List (List (Invoc (GcsCall F R)))) (f0 : F)
+    (c : Config F (GcsCall F R) R) (hP : GcsProgram P) (h : Reach gcsStep (init P f0) c) :
+    c.st = f0 ∧
+    c.res = (effInvs c.tr).map (fun x => (x.1, x.2.1, x.2.2.query f0)) ∧
+    (∀ t i r, (t, i, r) ∈ c.res →
+      ∃ inv, (P.getD t [])[i]? = some inv ∧ r = inv.op.query f0) := by
+  have hro : ∀ x ∈ effInvs c.tr, (gcsStep f0 x.2.2).1 = f0 := by
+    intro x hx
+    obtain ⟨inv, h1, h2, _⟩ := effInvs_faithful (t := x.1) (i := x.2.1) (op := x.2.2) h hx
+    have hmem : inv ∈ P.getD x.1 [] := List.mem_of_getElem? h1
+    rw [List.getD_eq_getElem?_getD] at hmem
+    cases hg : P[x.1]? with
+    | none => rw [hg] at hmem; simp at hmem
+    | some th =>
+      rw [hg] at hmem
+      have hw := C20_gcs_immutable _ (hP th (List.mem_of_getElem? hg) inv hmem)
+      simp only at hw
+      rw [← h2]
+      simp [gcsStep, hw]
+  have hs : (c.st, c.res) = seqRun gcsStep f0 (effInvs c.tr) := (reach_all h).seq
+  rw [seqRun_readonly f0 _ hro] at hs
+  have h1 : c.st = f0 := congrArg Prod.fst hs
+  have h2 : c.res = (effInvs c.tr).map (fun x => (x.1, x.2.1, x.2.2.query f0)) :=
+    congrArg Prod.snd hs
+  refine ⟨h1, h2, ?_⟩
+  intro t i r hr
+  rw [h2] at hr
+  obtain ⟨x, hx, hxe⟩ := List.mem_map.mp hr
+  simp only [Prod.mk.injEq] at hxe
+  obtain ⟨e1, e2, e3⟩ := hxe
+  obtain ⟨inv, g1, g2, _⟩ := effInvs_faithful (t := x.1) (i := x.2.1) (op := x.2.2) h hx
+  exact ⟨inv, by rw [← e1, ← e2]; exact g1, by rw [g2, e3]⟩
+
+/-! ## non-vacuity -/
+
+section Examples
+open Bch.Model.Bloom
+open Bch.Proofs.Bloom (run answers)
+
+/-- skeleton of an exported method, looked up in the extracted facts -/
+def skOf (name : String) : List Act := (Bch.Generated.bloomSkeletons.lookup name).getD []
+
+example : skOf "Add" = [.lock, .access, .unlock, .ret] ∧ skOf "Matches" = skOf "Add" := by decide
+
+def exItem : Bytes := [1, 2, 3]
+
+/-- thread 0: `Add x`; thread 1: `Matches x`; on the 2-byte filter of C09's examples -/
+def exProg : List (List (Invoc Op)) :=
+  [[⟨skOf "Add", .add exItem⟩], [⟨skOf "Matches", .query exItem⟩]]
+
+def exInit : Config Filter Op (Option Bool) := init exProg (some Bch.Props.C09.exMsg)
+
+/-- what we observe of a run: the recorded results and the invocations (thread, index) in the
+    order of their `lock` events -/
+def observe (s : List Nat) : Option (List (Nat × Nat × Option Bool) × List (Nat × Nat)) :=
+  (runSched Model.Bloom.step exInit s).map fun c =>
+    (c.res, (lockInvs c.tr).map (fun x => (x.1, x.2.1)))
+
+/-- … the final filter and whether both threads have finished -/
+def observeSt (s : List Nat) : Option (Filter × Bool) :=
+  (runSched Model.Bloom.step exInit s).map fun c =>
+    (c.st, (c.thr 0).pend.isEmpty && (c.thr 1).pend.isEmpty)
+
+-- the hypotheses of the theorems hold for this program
+example : RealProgram exProg := by
+  intro th hth i hi
+  simp only [exProg, List.mem_cons, List.not_mem_nil, or_false] at hth
+  rcases hth with rfl | rfl <;> simp only [List.mem_singleton] at hi <;> subst hi
+  · exact ⟨"Add", by decide⟩
+  · exact ⟨"Matches", by decide⟩
+
+-- interleaving A: `Add` takes the mutex first — the test answers `true` = sequential [add, query]
+example : observe [0, 0, 0, 0, 1, 1, 1, 1] =
+    some ([(0, 0, none), (1, 0, some true)], [(0, 0), (1, 0)]) := by decide
+example : observeSt [0, 0, 0, 0, 1, 1, 1, 1] =
+    some (run (some Bch.Props.C09.exMsg) [.add exItem, .query exItem], true) := by decide
+example : answers (some Bch.Props.C09.exMsg) [.add exItem, .query exItem] = [none, some true] := by
+  decide
+-- interleaving B: `Matches` takes the mutex first — it answers `false` = sequential [query, add]
+example : observe [1, 1, 1, 1, 0, 0, 0, 0] =
+    some ([(1, 0, some false), (0, 0, none)], [(1, 0), (0, 0)]) := by decide
+example : observeSt [1, 1, 1, 1, 0, 0, 0, 0] =
+    some (run (some Bch.Props.C09.exMsg) [.query exItem, .add exItem], true) := by decide
+example : answers (some Bch.Props.C09.exMsg) [.query exItem, .add exItem] = [some false, none] := by
+  decide
+-- interleaving C: the returns overlap with the other thread's critical section; lock order decides
+example : observe [1, 1, 1, 0, 1, 0, 0, 0] =
+    some ([(1, 0, some false), (0, 0, none)], [(1, 0), (0, 0)]) := by decide
+example : observeSt [1, 1, 1, 0, 1, 0, 0, 0] =
+    some (run (some Bch.Props.C09.exMsg) [.query exItem, .add exItem], true) := by decide
+-- the insertion is never lost: the final filter is the same in all three
+example : run (some Bch.Props.C09.exMsg) [.query exItem, .add exItem] = some ⟨[24, 32], 3, 5, 0⟩ ∧
+    run (some Bch.Props.C09.exMsg) [.add exItem, .query exItem] = some ⟨[24, 32], 3, 5, 0⟩ := by
+  decide
+-- the mutex rule: thread 1 cannot take the lock while thread 0 is between `lock` and `unlock`
+example : observe [0, 1] = none ∧ observe [0, 0, 1] = none ∧ (observe [0, 0, 0, 1]).isSome = true := by
+  decide
+
+/-- the configuration reached by interleaving A -/
+def exA : Config Filter Op (Option Bool) :=
+  (runSched Model.Bloom.step exInit [0, 0, 0, 0, 1, 1, 1, 1]).getD exInit
+
+theorem exA_reach : Reach Model.Bloom.step exInit exA :=
+  runSched_reach Model.Bloom.step Reach.refl [0, 0, 0, 0, 1, 1, 1, 1] exA rfl
+
+example : exA.tr.map (fun e => (e.tid, e.act, e.holder, e.eff)) =
+    [(0, .lock, none, false), (0, .access, some 0, true), (0, .unlock, some 0, false),
+     (0, .ret, none, false), (1, .lock, none, false), (1, .access, some 1, true),
+     (1, .unlock, some 1, false), (1, .ret, none, false)] := by decide
+
+-- the hypotheses of `C20_query_after_insert` are satisfiable: it explains interleaving A
+example : (1, 0, some true) ∈ exA.res :=
+  C20_query_after_insert exProg Bch.Props.C09.exMsg exA exA_reach [] [] [] 0 0 1 0
+    (.add exItem) (.query exItem) exItem rfl (by decide) (by decide) (by decide) rfl
+    (by intro y hy; cases hy) rfl
+
+-- … and so are those of `C20_query_after_unlock`: `Add`'s unlock is event 2, `Matches`' lock is
+-- event 4 and governs its effect, event 5
+example : (1, 0, some true) ∈ exA.res := by
+  have hos : OS exProg := by
+    intro th hth i hi
+    simp only [exProg, List.mem_cons, List.not_mem_nil, or_false] at hth
+    rcases hth with rfl | rfl <;> simp only [List.mem_singleton] at hi <;> subst hi <;> decide
+  have hlen : exA.tr.length = 8 := by decide
+  have hl : ∀ p, p < 8 → (run (some Bch.Props.C09.exMsg)
+      ((effInvs (exA.tr.take p)).map (·.2.2))).isSome = true := by decide
+  have hm : ∀ p, p < 8 → (effInvs ((exA.tr.drop (p + 1)).take (5 - (p + 1)))).all
+      (fun y => !Bch.Proofs.Bloom.resets y.2.2) = true := by decide
+  have h2 : 2 < exA.tr.length := by rw [hlen]; decide
+  have h4 : 4 < exA.tr.length := by rw [hlen]; decide
+  have h5 : 5 < exA.tr.length := by rw [hlen]; decide
+  refine C20_query_after_unlock exProg Bch.Props.C09.exMsg exA hos exA_reach 2 4 5
+    (exA.tr[2]'h2) (exA.tr[5]'h5) exItem (List.getElem?_eq_getElem h2) rfl rfl
+    (List.getElem?_eq_getElem h5) rfl rfl ?_ (by decide) (by decide) (by decide) ?_ ?_
+  · exact ⟨exA.tr[4]'h4, exA.tr[5]'h5, by decide, List.getElem?_eq_getElem h4,
+      List.getElem?_eq_getElem h5, rfl, rfl, rfl, fun q x h1 h2 => by omega⟩
+  · intro p a hp _ _ _
+    exact hl p (by have := get_lt hp; omega)
+  · intro p a hp _ _ _ y hy
+    have := List.all_eq_true.mp (hm p (by have := get_lt hp; omega)) y hy
+    simpa using this
+
+-- interleaving A is a complete execution of a one-section program: the hypotheses of
+-- `C20_linearizable_lock_list` / `C20_no_insertion_lost` are satisfiable
+theorem exA_complete : Complete exA := by
+  intro t
+  match t with
+  | 0 => rfl
+  | 1 => rfl
+  | n + 2 => rfl
+
+example : exA.st = run (some Bch.Props.C09.exMsg) ((lockInvs exA.tr).map (·.2.2)) := by
+  have hos : OS exProg := (real_program_wb_os exProg (by
+    intro th hth i hi
+    simp only [exProg, List.mem_cons, List.not_mem_nil, or_false] at hth
+    rcases hth with rfl | rfl <;> simp only [List.mem_singleton] at hi <;> subst hi
+    · exact ⟨"Add", by decide⟩
+    · exact ⟨"Matches", by decide⟩)).2
+  exact (C20_no_insertion_lost exProg _ exA hos exA_reach exA_complete).1
+
+/-- NEGATIVE: an `Add` that forgets the lock -/
+def badSk : List Act := [.access, .ret]
+
+example : wellBracketed badSk = false := by decide
+
+def badProg : List (List (Invoc Unit)) := [[⟨badSk, ()⟩], [⟨badSk, ()⟩]]
+def badStep (s : Nat) (_ : Unit) : Nat × Nat := (s + 1, s)
+def badRun : Config Nat Unit Nat := (runSched badStep (init badProg 0) [0, 1]).getD (init badProg 0)
+
+/-- the unlocked skeleton has an execution with two `access` events of different threads that are
+not separated by `unlock`→`lock` (the conclusion of `C20_drf` fails): a data race -/
+example : Reach badStep (init badProg 0) badRun ∧
+    ∃ (a a' : Event Unit), badRun.tr[0]? = some a ∧ badRun.tr[1]? = some a' ∧
+      a.act = .access ∧ a'.act = .access ∧ a.tid ≠ a'.tid ∧
+      ¬ ∃ (u l : Nat) (b d : Event Unit), 0 < u ∧ u < l ∧ l < 1 ∧
+        badRun.tr[u]? = some b ∧ b.act = .unlock ∧ b.tid = a.tid ∧
+        badRun.tr[l]? = some d ∧ d.act = .lock ∧ d.tid = a'.tid := by
+  refine ⟨runSched_reach badStep Reach.refl [0, 1] badRun rfl, _, _, rfl, rfl, rfl, rfl, by decide, ?_⟩
+  rintro ⟨u, l, _, _, h1, h2, h3, _⟩
+  omega
+-- … and the `access` events are not performed by a mutex holder
+example : badRun.tr.map (fun e => (e.tid, e.act, e.holder)) =
+    [(0, .access, none), (1, .access, none)] := by decide
+
+/-- GCS: two threads query an (abstract) immutable filter without any lock -/
+def gcsProg : List (List (Invoc (GcsCall (List Nat) Bool))) :=
+  [[⟨[.access, .ret], ⟨"Match", 0, id, fun f => f.contains 7⟩⟩],
+   [⟨[.access, .ret], ⟨"MatchAny", 0, id, fun f => f.contains 9⟩⟩]]
+
+example : GcsProgram gcsProg := by
+  intro th hth i hi
+  simp only [gcsProg, List.mem_cons, List.not_mem_nil, or_false] at hth
+  rcases hth with rfl | rfl <;> simp only [List.mem_singleton] at hi <;> subst hi <;> decide
+
+example : ((runSched gcsStep (init gcsProg [7, 8]) [1, 0, 0, 1]).map fun c => (c.st, c.res)) =
+    some ([7, 8], [(1, 0, false), (0, 0, true)]) := by decide
+
+end Examples
 
 end Bch.Props.C20
